@@ -9,6 +9,7 @@ package main
 // and the two roots must be equal. A difference is classified into a stable class key.
 
 import (
+	"com.tuntun.rangers/node/src/common"
 	"encoding/json"
 	"fmt"
 	"strings"
@@ -140,6 +141,33 @@ func mentions(lines []string, kindPrefix, addr string) bool {
 	return false
 }
 
+// sameModuloLeadingZeros: two leaf descriptions whose storage values only differ by leading zero bytes
+func sameModuloLeadingZeros(la, lb string) bool {
+	norm := func(l string) string {
+		i := strings.LastIndexByte(l, ':')
+		if i < 0 {
+			return l
+		}
+		var out []string
+		for _, kv := range strings.Split(l[i+1:], ",") {
+			if j := strings.IndexByte(kv, '='); j >= 0 {
+				kv = kv[:j+1] + strings.TrimLeft(kv[j+1:], "0")
+			}
+			out = append(out, kv)
+		}
+		return l[:i+1] + strings.Join(out, ",")
+	}
+	return norm(la) == norm(lb)
+}
+
+func balKeyHex(a common.Address) string {
+	pos := uint64(3)
+	if common.IsSub() {
+		pos = 4
+	}
+	return hx.Hex(dummyWorld().GetERC20Key(a, pos))
+}
+
 func zeroTouch(region []string, addr string) bool {
 	for _, l := range region {
 		f := strings.Fields(l)
@@ -169,6 +197,9 @@ func classifyRoot(A, B runRes, prefix, region []string) (string, string) {
 			}
 			if A.dirty[addr] && B.dirty[addr] && (mentions(prefix, "committed ", addr) || mentions(region, "committed ", addr)) {
 				return "committed-read-clobbers-cache", "account " + addr + ": GetCommittedState overwrote a cached dirty slot; the journal then records the stale value: " + la + " vs " + lb
+			}
+			if mentions(region, "suicide ", "") && sameModuloLeadingZeros(la, lb) {
+				return "suicide-undo-rewrites-balance-slot", "account " + addr + ": suicideChange.undo rewrote a balance slot with minimal big-endian bytes: " + la + " vs " + lb
 			}
 			return "leaf-differs-after-revert", "account " + addr + ": " + la + " vs " + lb
 		}
@@ -220,6 +251,10 @@ func search(args map[string]string) {
 				[]string{"setstate " + a1 + " " + k32 + " " + v(3)}, nil, false},
 			{[]string{"setstate " + a1 + " " + k32 + " " + v(1), "commit 1", "reopen", "setstate " + a1 + " " + k32 + " " + v(2)},
 				[]string{"committed " + a1 + " " + k32}, nil, true},
+			{[]string{"setstate " + hx.Hex(u0.tok[:]) + " " + balKeyHex(u0.addrs[2]) + " " + v(5), "setnonce " + a1 + " 1"},
+				[]string{"suicide " + a1}, nil, true},
+			{[]string{"setstate " + hx.Hex(u0.tok[:]) + " " + balKeyHex(u0.addrs[2]) + " " + v(5), "setnonce " + a1 + " 1"},
+				[]string{"suicide " + a1}, nil, false},
 		}
 	}
 	for i := -len(directed); i < n; i++ {
@@ -326,6 +361,9 @@ func search(args map[string]string) {
 				} else if f := strings.Fields(A.qs[j]); (q == "getdata" || q == "getstate") && len(f) == 3 && (mentions(prefix, "committed ", f[1]) || mentions(region, "committed ", f[1])) {
 					v.Key = "committed-read-clobbers-cache"
 					v.Desc = "GetCommittedState overwrote a cached dirty slot, so GetData answers differently after the revert: " + A.qs[j]
+				} else if f := strings.Fields(A.qs[j]); q == "getdata" && len(f) == 3 && mentions(region, "suicide ", "") && len(A.answers[j]) < len(B.answers[j]) && strings.TrimLeft(B.answers[j], "0") == strings.TrimLeft(A.answers[j], "0") {
+					v.Key = "suicide-undo-rewrites-balance-slot"
+					v.Desc = "suicideChange.undo rewrites the balance slot with minimal big-endian bytes (leading zeros lost): " + A.qs[j]
 				} else {
 					v.Key = "query-" + q + "-not-restored"
 					v.Desc = "accessor answers differently after the revert: " + A.qs[j]
